@@ -33,6 +33,8 @@ def run(lines, out, args):
         return acc, pos, None
 
     def operand(n):
+        if n[0] == "c" and n[1:].isdigit():
+            return implementedBy(classes[int(n[1:])])
         return ifs[int(n[1:])] if n[0] == "i" and n[1:].isdigit() else decls[n]
 
     def snapshot(x):
@@ -75,6 +77,9 @@ def run(lines, out, args):
                     classImplementsOnly(C, *[ifs[x] for x in dec])
                 elif dec:
                     classImplements(C, *[ifs[x] for x in dec])
+            elif f[0] == "cimpl":
+                # a LATER classImplements(C, ...) on a class that already has subclasses with declarations of their own
+                classImplements(classes[int(f[1])], *[ifs[int(x)] for x in f[3:]])
             elif f[0] == "decl":
                 a, _, _ = parse(f[3:], 0)
                 decls[f[1]] = Declaration(*a)
@@ -85,7 +90,7 @@ def run(lines, out, args):
                     got += check_flat(A)
             elif f[0] == "memall":
                 A = operand(f[1])
-                got = " ".join(str(k) for k in sorted(ifs) if k and ((ifs[k] in A) if not isinstance(A, InterfaceClass) else ifs[k] is A))
+                got = " ".join(str(k) for k in sorted(ifs) if ((ifs[k] in A) if not isinstance(A, InterfaceClass) else ifs[k] is A))
             elif f[0] == "flat":
                 # flat A | flat c2 | flat A + B | flat A - B : the interfaces of X.flattened(), in the order yielded (0 = Interface)
                 def fop(n):
